@@ -163,8 +163,53 @@ def corridor_cases():
         yield dict(game=game, api="solver", theta=1e-6, known=dict(pstar=vals, T=T))
 
 
+# distributions written in decimals whose goal mass is the same rational number, summed along different
+# floating-point paths (0.7 + 0.2 + 0.1 is one ulp below 1, 0.1 + 0.2 one ulp above 0.3, ...)
+DECIMAL_SPLITS = {
+    "1": [[1], [0.7, 0.2, 0.1], [0.3, 0.3, 0.3, 0.1], [0.1] * 10, [0.6, 0.4], [0.9, 0.1]],
+    "0.3": [[0.3], [0.1, 0.2], [0.1, 0.1, 0.1], [0.15, 0.15], [0.05, 0.25]],
+    "0.6": [[0.6], [0.2, 0.2, 0.2], [0.1, 0.5], [0.3, 0.3], [0.35, 0.25]],
+    "0.9": [[0.9], [0.3, 0.3, 0.3], [0.1] * 9, [0.7, 0.2], [0.45, 0.45]],
+}
+
+
+@st.composite
+def decimal_tie_cases(draw):
+    """A chooser over 2-4 lotteries of equal goal mass (as decimals), optionally one clearly different one."""
+    from fractions import Fraction as F
+    v = draw(st.sampled_from(sorted(DECIMAL_SPLITS)))
+    k = draw(st.integers(2, 4))
+    splits = [draw(st.sampled_from(DECIMAL_SPLITS[v])) for _ in range(k)]
+    other = draw(st.sampled_from((None, "0.5", "0.2", "0.95")))
+    owner = draw(st.sampled_from((P1, P2)))
+    lots = [(sp, F(v)) for sp in splits]
+    if other is not None and other != v:
+        lots.insert(draw(st.integers(0, len(lots))), ([float(other)], F(other)))
+    n_l = len(lots)
+    # states: 0 chooser, 1..n_l lotteries, then goals G1..G3 (final), sink
+    g0 = 1 + n_l
+    goals, sink = [g0, g0 + 1, g0 + 2], g0 + 3
+    tl = [[(games.NAMES[i], 1 + i) for i in range(n_l)]]
+    for sp, _ in lots:
+        row = [(p, goals[j % 3]) for j, p in enumerate(sp)]
+        rest = 1 - sum(F(str(p)) for p in sp)
+        if rest > 0:
+            row.insert(draw(st.integers(0, len(row))), (float(rest), sink))
+        tl.append(row)
+    tl += [[(1, x)] for x in goals + [sink]]
+    n = len(tl)
+    vals = [x for _, x in lots]
+    best = max(vals) if owner == P1 else min(vals)
+    game = dict(rewards=[1] + [0] * (n - 1), players=[owner] + [PR] * (n - 1), transition_list=tl,
+                final_states=list(draw(st.permutations(goals))))
+    return dict(kind="decimal_ties", game=game, expect=[games.NAMES[i] for i, x in enumerate(vals) if x == best],
+                value=v)
+
+
 def phases(tier):
-    return [Phase("deep-corridors", enum=corridor_cases,
+    return [Phase("decimal-ties", strategy=decimal_tie_cases, examples=(300, 8000),
+                  note="equal rational values reached through different floating-point sums (decimal probabilities)"),
+            Phase("deep-corridors", enum=corridor_cases,
                   note="values that travel one state per sweep over 60-1030 states; exact values known by construction"),
             Phase("planted-ties-and-random", strategy=cases, examples=(2000, 80000))]
 
@@ -259,7 +304,13 @@ def check_strategies(v, game, facts, pstar, phat, strat, theta, label, stopping)
         if got and set(got) < co_actions and [a for a in expect if a in got] == got:
             ph = [phat[lst[i][1]] for i in co]
             spread = max(ph) - min(ph)
-            if got == harness_argopt(lst, phat, digits, pl) and 0 < spread <= tolgap:
+            # ... and only where an approximation is involved at all: a co-optimal successor whose value does not
+            # depend on any cycle is computed exactly by the iteration (up to float rounding), so its reported
+            # value must be the exact one; a tie lost there is not K1
+            exact_ones_ok = all(abs(phat[lst[i][1]] - float(pstar[lst[i][1]])) <= 1e-12
+                                for i in co if not exact.depends_on_cycle(game, lst[i][1]))
+            some_cyclic = any(exact.depends_on_cycle(game, lst[i][1]) for i in co)
+            if got == harness_argopt(lst, phat, digits, pl) and 0 < spread <= tolgap and exact_ones_ok and some_cyclic:
                 if K1 in known:
                     v.fail("tie-missed-by-rounding", f"{label}: state {s} ({pl}) reports {got}, exact co-optima "
                                                      f"{expect} (value {opt}); reported successor values "
@@ -277,7 +328,36 @@ def check_strategies(v, game, facts, pstar, phat, strat, theta, label, stopping)
                                               f"{[phat[t] for _, t in lst]}", sig=f"{pl}:{kind}")
 
 
+def check_decimal_ties(case):
+    """The expected list comes from the decimal reading of the probabilities (0.7 + 0.2 + 0.1 = 1); the values
+    are loop-free, nowhere near a rounding boundary, and their float sums are within 1e-15 of the decimal value."""
+    from harness.sut import solve
+    v = Verdict()
+    v.cls("decimal_ties", "tie_value_" + case["value"])
+    v.nontrivial = len(case["expect"]) >= 2
+    if len(case["expect"]) >= 2:
+        v.cls("exact_tie")
+    game = case["game"]
+    for prune in (False, True):
+        o = solve(game, prune, sweeps=200)
+        if o.kind != "ok":
+            v.fail("solver-raises", f"solve(prune={prune}): {o.brief()}", sig=o.kind)
+            continue
+        got = o.result[1][0]
+        if got != case["expect"]:
+            v.fail("wrong-reachability-strategy",
+                   f"solve(prune={prune}): state 0 ({game['players'][0]}) reports {got}, the actions of "
+                   f"{'largest' if game['players'][0] == P1 else 'smallest'} value are {case['expect']}; lotteries "
+                   f"{game['transition_list'][1:1 + len(game['transition_list'][0])]}, reported values "
+                   f"{[o.result[3][t] for _, t in game['transition_list'][0]]}", sig=game["players"][0] + ":decimal")
+        if any(x is not None for x in o.result[1][1:]):
+            v.fail("probabilistic-has-strategy", f"solve(prune={prune}): {o.result[1]}")
+    return v
+
+
 def check_case(case):
+    if case.get("kind") == "decimal_ties":
+        return check_decimal_ties(case)
     v = Verdict()
     game = case["game"]
     facts = GameFacts(game, known=case.get("known"))
